@@ -20,6 +20,9 @@ Property theorems only (helper lemmas: `MJ/Proofs/Blocks.lean`, `MJ/Proofs/Block
 namespace MJ.C06
 open MJ.Blocks
 
+/-- an empty render context, lenient undefined behaviour -/
+abbrev c0 : Cfg := { rootCtx := [] }
+
 /-- Full-strength statement: for every environment in the fragment `EnvOK` — layouts and block
     bodies made of text, variables, `set`, macros, block tags, `self.name()` (emitted or
     captured), `super()` (emitted or captured, inside blocks), required blocks, conditional
@@ -30,7 +33,7 @@ open MJ.Blocks
     cyclic ones and runs that hit the recursion limit included) the driver returns exactly what
     the spec returns: the same output or the same error chain. -/
 def C06_full : Prop :=
-  ∀ (env : Env) (ctx : Frame) (fuel main : Nat), EnvOK env →
+  ∀ (env : Env) (ctx : Cfg) (fuel main : Nat), EnvOK env →
     render env ctx fuel main = specRender env ctx fuel main
 
 theorem blocks_refine_spec : C06_full := by
@@ -60,8 +63,8 @@ def exEnv : Env :=
       blocks := [(0, [.text "<r0>", .callBlock 1]), (1, [.text "<r1>"])] } ]
 
 example : EnvOK exEnv := by decide
-example : render exEnv [] 10 0 = .ok ["<pre0>", "<top>", "<c0>", "<r0>", "<m1>", "<end>"] := by decide +kernel
-example : specRender exEnv [] 10 0 = .ok ["<pre0>", "<top>", "<c0>", "<r0>", "<m1>", "<end>"] := by decide +kernel
+example : render exEnv c0 10 0 = .ok ["<pre0>", "<top>", "<c0>", "<r0>", "<m1>", "<end>"] := by decide +kernel
+example : specRender exEnv c0 10 0 = .ok ["<pre0>", "<top>", "<c0>", "<r0>", "<m1>", "<end>"] := by decide +kernel
 
 /-! an include of a template that is an inheritance chain of its own and fills a required block;
     the includer's block `b0` does not leak into it -/
@@ -71,15 +74,15 @@ def exEnv2 : Env :=
     { layout := [.text "<q:", .callBlock 0, .text ">"], blocks := [(0, [.required])] } ]
 
 example : EnvOK exEnv2 := by decide
-example : render exEnv2 [] 8 0 = .ok ["<a0>", "<q:", "<i0>", ">"] := by decide +kernel
-example : render exEnv2 [] 8 2 = .error [.invalidOperation] := by decide +kernel
+example : render exEnv2 c0 8 0 = .ok ["<a0>", "<q:", "<i0>", ">"] := by decide +kernel
+example : render exEnv2 c0 8 2 = .error [.invalidOperation] := by decide +kernel
 
 /-- `call_block` (block tags and `self.name()`): whenever the engine is in a state that arises
     while rendering the definitions `D` (`Good`: stacks = `D`, cursor of the current block at its
     level, cursors of all blocks that can still be entered at 0), a block reference renders the
     **most-derived** definition `(D m)[0]` (`specBlock`: unknown block and a lone `required`
     definition are errors) and leaves block stacks, cursors and loaded set as they were. -/
-theorem block_renders_most_derived (env : Env) (ctx : Frame) (henv : EnvOK env)
+theorem block_renders_most_derived (env : Env) (ctx : Cfg) (henv : EnvOK env)
     (D : Nat → List (List Item)) (hwf : WF D) (f : Nat) (cur : Option Nat) (k m : Nat)
     (disc : Bool) (outer : Nat) (ae : AE) (st : St) (hg : Good D cur true k st)
     (hm : ∀ n, cur = some n → n < m) :
@@ -91,7 +94,7 @@ theorem block_renders_most_derived (env : Env) (ctx : Frame) (henv : EnvOK env)
     next one up the chain, skipping templates that do not define the block, since `defs` only
     lists definitions — wraps its errors in `EvalBlock`, and puts the cursor back; when there is
     no further definition it is an error, not empty output (`specSuper`). -/
-theorem super_goes_one_up (env : Env) (ctx : Frame) (henv : EnvOK env)
+theorem super_goes_one_up (env : Env) (ctx : Cfg) (henv : EnvOK env)
     (D : Nat → List (List Item)) (hwf : WF D) (f n k : Nat) (disc : Bool) (outer : Nat) (ae : AE) (st : St)
     (hg : Good D (some n) true k st) :
     performSuper (evalImpl env ctx f) (some n) disc outer ae st =
@@ -103,6 +106,53 @@ example : Good (defs exEnv [0, 1, 2]) (some 0) true 0
     { blocks := defs exEnv [0, 1, 2], depth := fun _ => 0, loaded := [2, 1], frames := [[]] } :=
   ⟨rfl, by intro n hn; cases hn; exact ⟨rfl, by decide⟩, fun _ _ _ => rfl⟩
 example : defs exEnv [0, 1, 2] 0 = [[.text "<c0>", .super], [.text "<r0>", .callBlock 1]] := rfl
+
+/-- the spec's answer for a block call as a plain result -/
+def blockResult (r : SRes) : Except Err (List String) :=
+  match r with
+  | .ok (o, _) => .ok o
+  | .error e => .error e
+
+/-- `State::render_block` after `Template::render_captured` (the entry point that renders one
+    block of a — possibly extending — template): when the render succeeded, the state it leaves
+    behind holds the definitions of the whole chain `main :: more` that was followed, and
+    `render_block(n)` renders the most-derived definition of `n` along that chain (`specBlock`:
+    an unknown block or a lone `required` definition is an error). -/
+theorem render_block_most_derived (env : Env) (cfg : Cfg) (henv : EnvOK env) (fuel main n : Nat)
+    (T : Template) (o : List String) (st' : St) (hT : env[main]? = some T)
+    (hr : evalImpl env cfg fuel none false false 0 T.ae T.layout (initSt T) = .ok (o, st')) :
+    ∃ more, renderThenBlock env cfg fuel main n =
+      blockResult (specBlock (specAll env cfg fuel) (defs env (main :: more)) false 0 T.ae n st'.frames) := by
+  obtain ⟨more, hst⟩ := final_chainSt env cfg henv fuel [main] T.layout (initSt T) none false 0 T.ae
+    (initChainSt env main T hT (initSt T)) (henv.layout hT) (by simp) o st' hr
+  refine ⟨more, ?_⟩
+  have hg : Good (defs env ([main] ++ more)) none true 0 st' :=
+    ⟨hst.blocks, (by intro k hk; cases hk), fun _ m _ => hst.depth m⟩
+  have hc := callBlock_sim (hyp_all env cfg henv fuel) _ (WF_defs env henv ([main] ++ more)) none 0 n false 0
+    T.ae st' hg (by intro k hk; cases hk)
+  simp only [renderThenBlock, hT, hr, hc, List.singleton_append]
+  cases specBlock (specAll env cfg fuel) (defs env (main :: more)) false 0 T.ae n st'.frames with
+  | error e => rfl
+  | ok r => rfl
+
+/-- `Template::new_state().render_block(n)`: on a fresh state only the template's own blocks are
+    known — the block renders its own definition, `super()` inside it has no parent -/
+theorem render_block_on_fresh_state (env : Env) (cfg : Cfg) (henv : EnvOK env) (fuel main n : Nat)
+    (T : Template) (hT : env[main]? = some T) :
+    blockOnFreshState env cfg fuel main n =
+      blockResult (specBlock (specAll env { cfg with rootCtx := [] } fuel) (defs env [main]) false 0 T.ae n []) := by
+  have hst := initChainSt env main T hT { initSt T with frames := [] }
+  have hg : Good (defs env [main]) none true 0 { initSt T with frames := [] } :=
+    ⟨hst.blocks, (by intro k hk; cases hk), fun _ m _ => hst.depth m⟩
+  have hc := callBlock_sim (hyp_all env { cfg with rootCtx := [] } henv fuel) _ (WF_defs env henv [main]) none 0 n
+    false 0 T.ae _ hg (by intro k hk; cases hk)
+  simp only [blockOnFreshState, hT, hc]
+  cases specBlock (specAll env { cfg with rootCtx := [] } fuel) (defs env [main]) false 0 T.ae n [] with
+  | error e => rfl
+  | ok r => rfl
+
+example : renderThenBlock exEnv c0 10 0 0 = .ok ["<c0>", "<r0>", "<m1>"] := by decide +kernel
+example : blockOnFreshState exEnv c0 10 0 0 = .error [.invalidOperation] := by decide +kernel
 
 theorem filterMap_head_eq_findSome {α β : Type} (g : α → Option β) (l : List α) :
     (l.filterMap g)[0]? = l.findSome? g := by
@@ -137,7 +187,7 @@ theorem child_text_discarded (rd : Rd) (rec : Rec) (p post : List Item) (st : St
     stepItems rd rec (some p) post st = .ok ([], st, some p) :=
   post_plain_silent rd rec p post st h
 
-example : stepItems ⟨exEnv, [], none, false, false, 0, .none⟩ (evalImpl exEnv [] 5) (some [])
+example : stepItems ⟨exEnv, c0, none, false, false, 0, .none⟩ (evalImpl exEnv c0 5) (some [])
     [.text "<post0>", .callBlock 0] (initSt exEnv[0]) = .ok ([], initSt exEnv[0], some []) :=
   child_text_discarded _ _ _ _ _ rfl
 
@@ -169,8 +219,8 @@ example : ∃ st' l, loadBlocks exEnv 1 (initSt exEnv[0]) = .ok (st', l) ∧ st'
     most `|env|` links; so with `(LIMIT - 1)·(|env| + 3) + |env| + 2` levels of model fuel — or
     more — the fuel is never what stops a render: the result is the output or a genuine error
     (cycle, missing template, recursion limit, …). -/
-theorem rendering_terminates (env : Env) (ctx : Frame) (henv : EnvOK env) (main fuel : Nat)
-    (hfuel : W env.length 2 + env.length + 2 ≤ fuel) :
+theorem rendering_terminates (env : Env) (ctx : Cfg) (henv : EnvOK env) (main fuel : Nat)
+    (hfuel : renderFuel env ≤ fuel) :
     ∀ e, render env ctx fuel main = .error e → Kind.recursion ∉ e := by
   rw [blocks_refine_spec env ctx fuel main henv]
   unfold specRender
@@ -179,7 +229,7 @@ theorem rendering_terminates (env : Env) (ctx : Frame) (henv : EnvOK env) (main 
   | some T =>
     have hl : 0 + ([[]] : List Frame).length ≤ LIMIT := by decide
     have := (term_all env ctx fuel).chain [main] false 0 T.ae T.layout [[]] (by simp) (by simp) (by simp) hl
-      (by simpa using hfuel)
+      (by simpa [renderFuel] using hfuel)
     intro e he
     simp only [] at he
     cases hr : (specAll env ctx fuel).chain [main] false 0 T.ae T.layout [[]] with
@@ -191,7 +241,7 @@ theorem rendering_terminates (env : Env) (ctx : Frame) (henv : EnvOK env) (main 
     rendering any template with fuel for `|env| + 1` template activations — or any larger
     amount — is the cycle error or template-not-found; never success, never truncated output,
     and not the recursion limit. -/
-theorem cycle_is_detected_error (env : Env) (ctx : Frame) (henv : EnvOK env)
+theorem cycle_is_detected_error (env : Env) (ctx : Cfg) (henv : EnvOK env)
     (hall : ∀ T ∈ env, extendsAfterText T.layout = true) (main fuel : Nat)
     (hmain : main < env.length) (hfuel : env.length + 1 ≤ fuel) :
     render env ctx fuel main = .error [.invalidOperation] ∨
@@ -210,18 +260,18 @@ def cycEnv : Env :=
 
 example : EnvOK cycEnv := by decide
 example : ∀ T ∈ cycEnv, extendsAfterText T.layout = true := by decide
-example : render cycEnv [] 3 0 = .error [.invalidOperation] := by decide +kernel
+example : render cycEnv c0 3 0 = .error [.invalidOperation] := by decide +kernel
 
 /-- include cycles end in the recursion-limit error: if every template includes some existing
     template (text, then an unconditional `include`), rendering any template is an error for
     every fuel — `BadInclude` wrappers around the innermost error — and with the fuel of
     `rendering_terminates` that innermost error is the engine's `InvalidOperation` (recursion
     limit exceeded), not the model's fuel. -/
-theorem include_cycle_errors (env : Env) (ctx : Frame) (henv : EnvOK env)
+theorem include_cycle_errors (env : Env) (ctx : Cfg) (henv : EnvOK env)
     (hall : ∀ T ∈ env, includesAfterText env T.layout = true) (main fuel : Nat)
     (hmain : main < env.length) :
     (∃ e, render env ctx fuel main = .error e ∧ IncErr e) ∧
-    (W env.length 2 + env.length + 2 ≤ fuel →
+    (renderFuel env ≤ fuel →
       ∃ j, render env ctx fuel main = .error (List.replicate j Kind.badInclude ++ [.invalidOperation])) := by
   have hT : env[main]? = some env[main] := List.getElem?_eq_getElem hmain
   obtain ⟨e, he, hie⟩ := include_cycle_spec env ctx hall fuel main hmain _ hT false 0 env[main].ae [[]]
@@ -253,7 +303,7 @@ theorem double_extends_error (rd : Rd) (rec : Rec) (p mid post : List Item) (t :
 
 example : render
     [ { layout := [.extends true 1, .text "<x>", .extends true 1], blocks := [] },
-      { layout := [.text "<p>"], blocks := [] } ] [] 10 0 = .error [.invalidOperation] := by decide +kernel
+      { layout := [.text "<p>"], blocks := [] } ] c0 10 0 = .error [.invalidOperation] := by decide +kernel
 
 /-- missing templates are errors, not truncated output: `extends` of a missing name fails with
     template-not-found at the tag; an include list of which no name exists fails unless
@@ -269,11 +319,11 @@ theorem missing_is_error_not_truncation (rd : Rd) (rec : Rec) (st : St) :
   rw [performInclude_all_missing rd.env rec cur disc ign outer names h false st]
   simp
 
-example : render [ { layout := [.text "<a>", .extends true 7], blocks := [] } ] [] 10 0
+example : render [ { layout := [.text "<a>", .extends true 7], blocks := [] } ] c0 10 0
     = .error [.templateNotFound] := by decide +kernel
-example : render [ { layout := [.text "<a>", .incl [7, 8] false, .text "<z>"], blocks := [] } ] [] 10 0
+example : render [ { layout := [.text "<a>", .incl [7, 8] false, .text "<z>"], blocks := [] } ] c0 10 0
     = .error [.templateNotFound] := by decide +kernel
-example : render [ { layout := [.text "<a>", .incl [7, 8] true, .text "<z>"], blocks := [] } ] [] 10 0
+example : render [ { layout := [.text "<a>", .incl [7, 8] true, .text "<z>"], blocks := [] } ] c0 10 0
     = .ok ["<a>", "<z>"] := by decide +kernel
 
 /-- an include renders the **first existing** name of its list: missing names in front of it are
@@ -302,26 +352,26 @@ theorem include_first_existing (env : Env) (rec : Rec) (cur : Option Nat) (disc 
     including an html card gets the card escaped, and an `{% autoescape %}` block around the
     include tag does not leak into the included template -/
 example : render [ { layout := [.emitVar 0, .incl [1] false], blocks := [], ae := .html },
-                   { layout := [.emitVar 0], blocks := [], ae := .none } ] [(0, .str "a<b")] 8 0
+                   { layout := [.emitVar 0], blocks := [], ae := .none } ] { rootCtx := [(0, .str "a<b")] } 8 0
     = .ok ["a&lt;b", "a<b"] := by decide +kernel
 example : render [ { layout := [.emitVar 0, .incl [1] false], blocks := [], ae := .none },
-                   { layout := [.emitVar 0], blocks := [], ae := .html } ] [(0, .str "a<b")] 8 0
+                   { layout := [.emitVar 0], blocks := [], ae := .html } ] { rootCtx := [(0, .str "a<b")] } 8 0
     = .ok ["a<b", "a&lt;b"] := by decide +kernel
 example : render [ { layout := [.autoesc .html [.emitVar 0, .incl [1] false]], blocks := [], ae := .none },
-                   { layout := [.emitVar 0], blocks := [], ae := .json } ] [(0, .str "a<b")] 8 0
+                   { layout := [.emitVar 0], blocks := [], ae := .json } ] { rootCtx := [(0, .str "a<b")] } 8 0
     = .ok ["a&lt;b", "\"a<b\""] := by decide +kernel
 /-- … whereas the parent's layout reached through `extends`, block bodies and `super()` keep the
     mode of the template that was rendered -/
 example : render [ { layout := [.extends true 1, .callBlock 0], blocks := [(0, [.emitVar 0, .super])], ae := .none },
                    { layout := [.emitVar 0, .callBlock 0], blocks := [(0, [.emitVar 0])], ae := .html } ]
-    [(0, .str "a<b")] 8 0 = .ok ["a<b", "a<b", "a<b"] := by decide +kernel
+    { rootCtx := [(0, .str "a<b")] } 8 0 = .ok ["a<b", "a<b", "a<b"] := by decide +kernel
 
 def incEnv : Env :=
   [ { layout := [.setVar 1 "L", .incl [9, 1, 2] false], blocks := [] },
     { layout := [.text "<x:", .emitVar 1, .text ">"], blocks := [] },
     { layout := [.text "<y>"], blocks := [] } ]
 
-example : render incEnv [] 10 0 = .ok ["<x:", "L", ">"] := by decide +kernel
+example : render incEnv c0 10 0 = .ok ["<x:", "L", ">"] := by decide +kernel
 
 /-- `import` / `from … import` expose exactly the imported template's top-level assignments.
     For a module template (text, `set`, macro definitions at top level — `assigns` lists what
@@ -330,7 +380,7 @@ example : render incEnv [] 10 0 = .ok ["<x:", "L", ">"] := by decide +kernel
     `name` and to *undefined* when the module does not assign `name` — independently of the
     importer's frames and render context — and neither changes anything else in the state.
     (`hd`: the import stays below the recursion limit.) -/
-theorem import_exports_toplevel (env : Env) (ctx : Frame) (f : Nat) (cur : Option Nat) (d0 e0 : Bool)
+theorem import_exports_toplevel (env : Env) (ctx : Cfg) (f : Nat) (cur : Option Nat) (d0 e0 : Bool)
     (outer : Nat) (ae : AE) (parent : Option (List Item)) (t : Nat) (T : Template) (hT : env[t]? = some T)
     (hs : T.layout.all Item.isAssign = true) (rest : List Item) (st : St)
     (hd : outer + INCLUDE_COST + (st.frames.length + 1) ≤ LIMIT) :
@@ -354,7 +404,7 @@ theorem import_exports_toplevel (env : Env) (ctx : Frame) (f : Nat) (cur : Optio
     of the child's assignments in front of and behind the `extends` tag followed by the parent's
     (a later assignment of the same name wins) — the imported template is rendered as an
     inheritance chain of its own into the fresh frame. -/
-theorem import_of_extending_template (env : Env) (ctx : Frame) (henv : EnvOK env) (f : Nat)
+theorem import_of_extending_template (env : Env) (ctx : Cfg) (henv : EnvOK env) (f : Nat)
     (cur : Option Nat) (d0 e0 : Bool) (outer : Nat) (ae : AE) (parent : Option (List Item))
     (t p v : Nat) (T P : Template) (pre post : List Item)
     (hT : env[t]? = some T) (hP : env[p]? = some P) (hl : T.layout = pre ++ .extends true p :: post)
@@ -371,7 +421,7 @@ theorem import_of_extending_template (env : Env) (ctx : Frame) (henv : EnvOK env
 example : render
     [ { layout := [.importAs 1 8, .emitAttr 8 2, .emitAttr 8 3, .emitAttr 8 4], blocks := [] },
       { layout := [.setVar 2 "c2", .extends true 2, .setVar 3 "c3"], blocks := [] },
-      { layout := [.setVar 4 "p4", .setVar 2 "p2"], blocks := [] } ] [] 10 0
+      { layout := [.setVar 4 "p4", .setVar 2 "p2"], blocks := [] } ] c0 10 0
     = .ok ["p2", "c3", "p4"] := by decide +kernel
 
 def modT : Template :=
@@ -380,10 +430,10 @@ def modT : Template :=
 /-- the importer's own `v3` (local and in the render context) is not what `m.v3` or
     `from m import v3` yield; the module's last assignment of `v2` and its macro are -/
 example : render [ { layout := [.setVar 3 "mine", .importAs 1 8, .emitAttr 8 3, .text "|", .emitAttr 8 2],
-                     blocks := [] }, modT ] [(3, .str "ctx")] 10 0 = .ok ["|", "b"] := by decide +kernel
+                     blocks := [] }, modT ] { rootCtx := [(3, .str "ctx")] } 10 0 = .ok ["|", "b"] := by decide +kernel
 example : render [ { layout := [.fromImport 1 3 7, .text "[", .emitVar 7, .text "]"], blocks := [] }, modT ]
-    [(3, .str "ctx")] 10 0 = .ok ["[", "]"] := by decide +kernel
+    { rootCtx := [(3, .str "ctx")] } 10 0 = .ok ["[", "]"] := by decide +kernel
 example : render [ { layout := [.fromImport 1 4 6, .callVar 6], blocks := [] }, modT ]
-    [(3, .str "ctx")] 10 0 = .ok ["<mac>"] := by decide +kernel
+    { rootCtx := [(3, .str "ctx")] } 10 0 = .ok ["<mac>"] := by decide +kernel
 
 end MJ.C06
